@@ -257,6 +257,7 @@ def run_case(idx, rng, tier, rep):
     e_client = rng.random() < 0.5
     h = scen.Hostile(e_client, keep_log=True, handshake=False)
     t = h.t
+    t.scramble = rng.random() < 0.5      # the application reuses the dict it passed to update_settings
     steps = []
     st = {'alive': True}
 
